@@ -248,8 +248,12 @@ type NegationNode struct {
 }
 
 func parseNegation(p *parser, t token) (Node, error) {
+	// A prefix minus takes only the operand that follows it.
+	// Parsing that operand at the binding power of the infix
+	// minus would let it swallow a following * / % chain, e.g.
+	// 8 / -2 / 2 would become 8 / -(2 / 2).
 	return &NegationNode{
-		RHS: p.parseExpression(p.bp(t.Type)),
+		RHS: p.parseExpression(p.bp(typeMult)),
 	}, nil
 }
 
